@@ -141,10 +141,20 @@ class Decl(Contract):
                 raise Unsupported('circuit.' + name)
 
         class OutSink(Model):
+            """the output list so far: ARBITRARY contents (a membership test gets an unconstrained answer - the label may or may not
+            have been declared as an output before; repeated OUTPUT lines are legal and must be kept, seed C11-d)"""
             def m_getattr(self_, it_, name):
                 if name == 'append':
                     return Native('sink.outputs.append', lambda label: got.append(('output', label)))
                 raise Unsupported('outputs.' + name)
+
+            def m_contains(self_, it_, x):
+                return it_.ctx.fresh(z3.BoolSort(), 'already_an_output')
+
+            def m_len(self_, it_):
+                n = it_.ctx.fresh(z3.IntSort(), 'n_outputs')
+                it_.ctx.assume(n >= 0)
+                return Sym(n)
         o = Obj(m.env['BenchToCircuit'], {'_circuit': CircuitSink()})
         kw = 'INPUT(' if self.kind == 'input' else 'OUTPUT('
         line = z3.Concat(z3.StringVal(kw), L, z3.StringVal(self.tail))
